@@ -125,10 +125,12 @@ def generate(rng, tier, idx):
     # ... and that sub-Manifest FILE lives on another filesystem (bind mount, link to a file elsewhere) while its
     # directory does not
     sub_manifest_foreign = sub_ign is not None and rng.random() < 0.3
+    # the root of the other filesystem carries the same inode number as the top directory of the tree
+    ino_collision = bool(mounts.get('mnt1')) and rng.random() < 0.4
     return {'prop': ID, 'order_key': '%016x' % rng.getrandbits(64), 'tree': tree, 'mounts': mounts,
             'ignores': ignores, 'ops': ops, 'unreg': unreg, 'file_entry_for_ext': bool(file_entry_for_ext),
             'file_entry_in_hidden_ext': bool(file_entry_in_hidden_ext), 'sub_ign': sub_ign,
-            'sub_manifest_foreign': bool(sub_manifest_foreign)}
+            'sub_manifest_foreign': bool(sub_manifest_foreign), 'ino_collision': ino_collision}
 
 
 def dev_of(mounts, base, realpath, default):
@@ -242,7 +244,10 @@ def execute(sc):
         top = os.path.join(root, 'Manifest')
         man_dev = dev_of(mounts, base, top, default_dev)
         nontrivial = bool(g_all['links'] or mounts)
-        seam = Seam(base, order_key=sc['order_key'], mounts=mounts, default_dev=default_dev, virtual_root=True)
+        seam = Seam(base, order_key=sc['order_key'], mounts=mounts, default_dev=default_dev, virtual_root=True,
+                    ino_alias=({'mnt1': 'tree'} if sc.get('ino_collision') else None))
+        if sc.get('ino_collision'):
+            counters['foreign_root_with_the_inode_number_of_the_top_directory'] = 1
         for i, op in enumerate(sc.get('ops', [])):
             kind = op['op']
             xdev = op.get('xdev', True)
